@@ -11,11 +11,14 @@
    address followed by one 16-byte record (string cell, index, size, offset) per file, body i =
    data[offset + pad, + size) with pad = 0x60 iff the first word of the data is 0, names distinct.
    Records may come in any order and bodies may be placed anywhere (aligned or not, overlapping
-   or not, empty).  The byte level is C01's parser correctness: the theorems take
-   `from_bytes LE f = Ok a` as their premise (C16_extract_from_bytes). *)
+   or not, empty).  Byte level: C16_extract_from_file speaks about ANY byte string that conforms to
+   the bin-archive format relation of C01 (Proofs/BinFormatSpec.v: tables in any order, strings anywhere
+   in the text section) with a content laid out as an arc; it rests on C01's parser correctness
+   (Proofs/TextBinBridge.v: parsed_obs_equal) and has no premise about BinFormat.from_bytes.
+   C16_extract_from_bytes is the same statement for a reader who already holds the parsed archive. *)
 From Coq Require Import List NArith ZArith Bool Permutation.
 From Mila Require Import Lib.Bytes Lib.Machine Model.BinArchive Model.BinStreams Model.BinFormat Model.Arc
-  Proofs.ObsEqual Proofs.ArcProofs Proofs.ArcTotal.
+  Proofs.BinFormatSpec Proofs.ObsEqual Proofs.TextBinBridge Proofs.ArcProofs Proofs.ArcTotal Proofs.ArcBytes.
 Import ListNotations.
 Local Open Scope N_scope.
 
@@ -30,6 +33,16 @@ Proof. exact arc_extract_map. Qed.
 Theorem C16_extract_from_bytes : forall m f a files,
   BinFormat.from_bytes LE f = Ok a -> arc_layout a files -> arc_from_bytes m f = Ok files.
 Proof. exact arc_from_bytes_extract. Qed.
+(* on FILES: every byte string conforming to the bin-archive format with a content laid out as an arc *)
+Theorem C16_extract_from_file : forall m f c files,
+  conforms LE f c -> arc_layout (content_archive LE c) files -> arc_from_bytes m f = Ok files.
+Proof. exact arc_extract_from_file. Qed.
+Theorem C16_file_no_count : forall m f c, conforms LE f c ->
+  label_addrs (content_archive LE c) COUNT = [] -> arc_from_bytes m f = Err ENoCount.
+Proof. exact arc_file_no_count. Qed.
+Theorem C16_file_no_info : forall m f c, conforms LE f c ->
+  label_addrs (content_archive LE c) COUNT <> [] -> label_addrs (content_archive LE c) INFO = [] -> arc_from_bytes m f = Err ENoInfo.
+Proof. exact arc_file_no_info. Qed.
 (* the relation (and so the result) does not depend on the hash order of the label map *)
 Theorem C16_layout_any_hash_order : forall a a' files,
   a_data a' = a_data a -> a_text a' = a_text a -> a_endian a' = a_endian a -> Permutation (a_labels a) (a_labels a') ->
@@ -115,6 +128,42 @@ Example C16_sample_extract :
   arc_from_archive Checked C16_sample_unpadded = Ok [([98], [9;8;7]); ([97], [])] /\
   arc_from_archive Wrapping C16_sample_padded = Ok [([98], [9;8;7])].
 Proof. split; vm_compute; reflexivity. Qed.
+(* a FILE (93 bytes, un-padded, one packed file "b" = 9 8 7): it conforms to the format with an arc-shaped content, and
+   the byte-level reader extracts exactly that file *)
+Definition C16_sample_file : bytes :=
+  [93;0;0;0; 28;0;0;0; 1;0;0;0; 2;0;0;0] ++ zeros 16
+  ++ [7;0;0;0; 9;8;7;0; 1;0;0;0; 59;0;0;0; 0;0;0;0; 3;0;0;0; 4;0;0;0]
+  ++ [12;0;0;0] ++ [8;0;0;0; 0;0;0;0; 12;0;0;0; 6;0;0;0]
+  ++ [67;111;117;110;116;0; 73;110;102;111;0; 98;0].
+Definition C16_sample_content : content :=
+  {| c_data := [7;0;0;0; 9;8;7;0; 1;0;0;0; 59;0;0;0; 0;0;0;0; 3;0;0;0; 4;0;0;0]; c_ptrs := []; c_text := [(12, [98])];
+     c_labels := [(8, [COUNT]); (12, [INFO])] |}.
+Example C16_sample_file_conforms : conforms LE C16_sample_file C16_sample_content.
+Proof.
+  exists (zeros 16), [12], [(8, 0); (12, 6)], [67;111;117;110;116;0; 73;110;102;111;0; 98;0], [(8, COUNT); (12, INFO)].
+  cbn zeta. split; [vm_compute; reflexivity|]. split; [reflexivity|]. split; [vm_compute; reflexivity|].
+  split; [repeat constructor|]. split; [repeat constructor; vm_compute; reflexivity|].
+  split. { cbn. repeat constructor; cbn; intuition discriminate. }
+  split. { cbn. apply Permutation_refl. }
+  split. { intros cell dest []. }
+  split. { intros cell s [H|[]]. inversion H; subst. exists 59. vm_compute. repeat split. }
+  split. { repeat constructor. }
+  split. { repeat constructor; vm_compute; discriminate. }
+  split. { cbn. repeat constructor; cbn; intuition discriminate. }
+  intros addr. unfold names_at. cbn [filter map fst snd C16_sample_content c_labels am_get].
+  destruct (N.eqb_spec 8 addr) as [E8|E8]; [subst addr; cbn; split; [reflexivity | discriminate]|].
+  destruct (N.eqb_spec 12 addr) as [E0|E0]; [subst addr; cbn; split; [reflexivity | discriminate]|].
+  destruct (N.eqb_spec addr 8); [congruence|]. destruct (N.eqb_spec addr 12); [congruence|]. cbn. split; [reflexivity | discriminate].
+Qed.
+Example C16_sample_file_layout : arc_layout (content_archive LE C16_sample_content) [([98], [9;8;7])].
+Proof.
+  exists 8, 12, 7, [mkEntry [98] 0 3 4]. repeat split; try reflexivity.
+  - intros j en Hj. destruct j as [|j]; cbn in Hj; [|destruct j; discriminate]. inversion Hj; subst. exists 4. vm_compute. repeat split; reflexivity.
+  - repeat constructor.
+  - repeat constructor; cbn; intuition discriminate.
+Qed.
+Example C16_sample_file_extract : forall m, arc_from_bytes m C16_sample_file = Ok [([98], [9;8;7])].
+Proof. intros m. exact (arc_extract_from_file m _ _ _ C16_sample_file_conforms C16_sample_file_layout). Qed.
 (* finding F9 on the model of the code BEFORE the repair, and the repaired outcome *)
 Example C16_F9_witness :
   fst (read_entry_unrepaired Checked f9_archive 0x64 HEADER_PAD) = Panic POverflow /\
